@@ -91,6 +91,8 @@ def gen_cases(rng, n, every_crash=False):
         c["fwd"] = gen.gen_sim_op(rng, c)
         base = dict(c, ops=[dict(o)])
         cases.append(base)
+        if rng.random() < 0.15:
+            cases.append(dict(c, ops=[dict(o, bad_mode=True)]))       # refused by the library's own argument check
         if every_crash:
             for k in range(0, 8):
                 for ph in PHASES:
